@@ -184,6 +184,14 @@ def asan_summary(err, k):
     return (m.group(1) if m else seg[-300:]) + " @ " + ">".join(fr)
 
 
+def foreign_leak(err):
+    """True when a LeakSanitizer report in err lists a block that was not allocated through the interposed allocator"""
+    for blk in re.split(r"\n\s*\n", err):
+        if re.match(r"\s*(Direct|Indirect) leak of", blk) and "__wrap_" not in blk:
+            return True
+    return False
+
+
 def judge(sc, base, r, sticky):
     """None if the outcome for one k is acceptable, else (kind, text)."""
     if isinstance(r, str):
@@ -328,8 +336,8 @@ def explore(chk, h, tier, only=None):
                  "source": s[1].decode("latin-1"), "data": s[2] if isinstance(s[2], tuple) else hx(s[2][:200]),
                  "sanitizer": detail, "cmd": "bin/check C16 --replay <this file>"}, found_input=True)
             by_key.setdefault(key, []).append((s[0], k, sticky))
-        if leaks:
-            # LeakSanitizer saw a leak in this batch.  Leaks of blocks that went through the wrappers are already reported per k by
+        if leaks and foreign_leak(errs):
+            # LeakSanitizer saw, in this batch, a leaked block whose allocation stack does not pass through the wrappers.  Leaks of blocks that went through the wrappers are already reported per k by
             # the live-allocation counter; what remains is memory allocated elsewhere (libcrypto, libc): localise by re-running the
             # k whose counter balanced with a leak check after every k (the first k that reports is the culprit, then continue after it)
             todo = [k for k in ks if isinstance(got.get(k), dict) and got[k]["live"] == 0 and got[k]["live2"] == 0]
